@@ -48,6 +48,27 @@ structure Good (N : Nat) (q : List Nat) (owner : Option Nat) (w r : Thr) (nfW ne
   rMode : (r.pc = .wait ∨ ∃ g, r.pc = .relock g) → r.mode ≠ .nowait
   rVal : (r.pc = .note ∨ r.pc = .leave .ok ∨ r.pc = .fin .ok) → gotH.getLast? = some r.val
 
+/-- `Good` from the conjunction of its fields (so that one `simp_all` treats the hypotheses once) -/
+theorem Good.of_and {N : Nat} {q : List Nat} {owner : Option Nat} {w r : Thr} {nfW neW putH gotH : List Nat}
+    (h : (owner = some 0 ↔ w.pc.Holds) ∧ (owner = some 1 ↔ r.pc.Holds) ∧ (∀ t, owner = some t → t = 0 ∨ t = 1) ∧
+      (nfW = if w.listed then [0] else []) ∧ (neW = if r.listed then [1] else []) ∧ (putH = gotH ++ q) ∧
+      (0 < N → q.length ≤ N) ∧ (w.released → 0 < N → q.length < N) ∧ (r.pc = .note → 0 < N → q.length < N) ∧
+      (r.released → q ≠ []) ∧ (w.pc = .note → q ≠ []) ∧
+      (w.pc = .wait → w.notified = false → (0 < N ∧ N ≤ q.length) ∨ r.pc = .note) ∧
+      (r.pc = .wait → r.notified = false → q = [] ∨ w.pc = .note) ∧
+      (w.fired = true → w.mode = .timed) ∧ (r.fired = true → r.mode = .timed) ∧
+      (∀ x, (w.pc = .leave x ∨ w.pc = .fin x) → x = .ok ∨ (x = .full ∧ (w.mode = .nowait ∨ w.fired = true))) ∧
+      (∀ x, (r.pc = .leave x ∨ r.pc = .fin x) → x = .ok ∨ (x = .empty ∧ (r.mode = .nowait ∨ r.fired = true))) ∧
+      (w.pc = .leave .full → w.mode = .nowait → 0 < N ∧ N ≤ q.length) ∧
+      (r.pc = .leave .empty → r.mode = .nowait → q = []) ∧
+      (w.pc = .relock false → w.fired = true) ∧ (r.pc = .relock false → r.fired = true) ∧
+      ((w.pc = .wait ∨ ∃ g, w.pc = .relock g) → w.mode ≠ .nowait) ∧
+      ((r.pc = .wait ∨ ∃ g, r.pc = .relock g) → r.mode ≠ .nowait) ∧
+      ((r.pc = .note ∨ r.pc = .leave .ok ∨ r.pc = .fin .ok) → gotH.getLast? = some r.val)) :
+    Good N q owner w r nfW neW putH gotH := by
+  obtain ⟨h1, h2, h3, h4, h5, h6, h7, h8, h9, h10, h11, h12, h13, h14, h15, h16, h17, h18, h19, h20, h21, h22, h23, h24⟩ := h
+  exact ⟨h1, h2, h3, h4, h5, h6, h7, h8, h9, h10, h11, h12, h13, h14, h15, h16, h17, h18, h19, h20, h21, h22, h23, h24⟩
+
 def Inv (c : Cfg) (s : State) : Prop :=
   ∃ w r, s.thr = [w, r] ∧ Good c.maxsize s.q s.owner w r s.nfW s.neW s.putH s.gotH
 
@@ -68,7 +89,9 @@ local macro "lane_fin" g:ident hthr:ident : tactic => `(tactic| (
       List.getD_cons_zero, List.getD_cons_succ, List.getElem?_cons_zero, List.getElem?_cons_succ]
     obtain ⟨own0, own1, ownR, nf, ne, fifo, bound, wRoom, rNote, rHas, wNote, wWait, rWait, wFired, rFired,
       wRes, rRes, wFullNow, rEmptyNow, wLost, rLost, wMode, rMode, rVal⟩ := $g
-    constructor <;> simp_all [Pc.Holds, Thr.listed, Thr.released, mustWait, isFull_iff, isFull_false_iff, failRes] <;> try grind))
+    apply Good.of_and
+    simp_all [Pc.Holds, Thr.listed, Thr.released, mustWait, isFull_iff, isFull_false_iff, failRes]
+    all_goals (and_intros <;> grind)))
 
 /-- one constructor of `Step` for a given thread: identify the moving thread with `w` / `r`, then `lane_fin` -/
 local macro "lane_case" s:ident t:term:max g:ident hthr:ident : tactic => `(tactic| (
